@@ -306,3 +306,9 @@ impl fmt::Debug for BytesStr {
         self.0.fmt(f)
     }
 }
+
+#[cfg(feature = "verif")]
+#[allow(missing_docs, dead_code, unused_imports)]
+pub(crate) mod verif_h {
+    include!(concat!(env!("H2_VERIF_DIR"), "/harness/hpack/header.rs"));
+}
